@@ -23,6 +23,7 @@ import (
 	"sort"
 	"strings"
 	"sync"
+	"sync/atomic"
 	"time"
 
 	"github.com/TarsCloud/TarsGo/tars"
@@ -152,6 +153,9 @@ type c08Case struct {
 	Class     string   `json:"class"`
 	Skipped   bool     `json:"skipped,omitempty"` // not run (an earlier genRequestID case hung)
 	Push       bool   `json:"push,omitempty"`        // trace: proxy 0 has a push callback; id-0 packets on its connections must reach it
+	Pings      int    `json:"pings,omitempty"`       // trace: keep-alive pings triggered per proxy while each round is outstanding; the peer acknowledges them (echo of the id, normal type, poisoned payload)
+	PingAt     bool   `json:"ping_at,omitempty"`     // trace: position the id counter so that a call of the first round holds the id equal to the proxy's timeout in ms
+	NPings     int    `json:"npings,omitempty"`      // observed: ping requests the server received
 	Follow     bool   `json:"follow,omitempty"`      // trace: a caller answered by reply/dup at once makes a second call (index total+k)
 	DupN       int    `json:"dupn,omitempty"`        // trace: act dup sends 3 writes of DupN replies each (0 = 1)
 	Procs      int    `json:"procs,omitempty"`       // trace: GOMAXPROCS during the scenario (0 = unchanged)
@@ -163,7 +167,7 @@ const c08Poison = 0xFFFFFFFF
 
 // c08Patience is the deadline of a caller that is going to be answered: far beyond anything a loaded machine needs (the
 // scripted server answers within milliseconds of having collected the round's requests).
-const c08Patience = 20 * time.Second
+const c08Patience = 12 * time.Second
 
 func c08Payload(k uint32, variant uint32) []byte {
 	b := make([]byte, 8)
@@ -404,12 +408,7 @@ func c08RunTrace(c *c08Case) []Failure {
 	var deadSp *tars.ServantProxy
 	for _, a := range c.Acts {
 		if a == "fail" && deadSp == nil {
-			dl, err := net.Listen("tcp", "127.0.0.1:0")
-			if err != nil {
-				fatal("listen: %v", err)
-			}
-			dport := dl.Addr().(*net.TCPAddr).Port
-			dl.Close()
+			dport := 1 // tcpmux: nobody listens there; a port that was just closed could be handed to another process's listener
 			obj := c08NextObj("C08Dead")
 			deadSp = c08Proxy(obj, dport)
 			c08SetHook(obj, func(req *requestf.RequestPacket) {
@@ -444,6 +443,8 @@ func c08RunTrace(c *c08Case) []Failure {
 	// follow-up calls (caller index total+k): a caller that was answered (acts reply, dup) at once makes a second call on
 	// the same proxy; the server answers it on sight. Whatever the first call left behind (receivers still holding its
 	// channel, stale packets) must not reach the second.
+	var npings int32
+	wantedPings := 0
 	var followMu sync.Mutex
 	followSeen := map[int]seen{}
 	var sendFn func(conn net.Conn, id int32, pay []byte, ow bool)
@@ -472,6 +473,12 @@ func c08RunTrace(c *c08Case) []Failure {
 					wire = append(wire, req.IRequestId)
 					wireMu.Unlock()
 					b := tools.Int8ToByte(req.SBuffer)
+					if req.SFuncName == "tars_ping" { // keep-alive: an allocation from the same generator; acknowledged like an ordinary call
+						log.add(c08Ev{Kind: "ping", ID: req.IRequestId, Conn: ci})
+						sendFn(conn, req.IRequestId, c08Payload(c08Poison, 0x50494E47), false)
+						atomic.AddInt32(&npings, 1)
+						continue
+					}
 					if len(b) != 8 {
 						continue
 					}
@@ -524,6 +531,9 @@ func c08RunTrace(c *c08Case) []Failure {
 	}
 
 	sendFn = send
+	if c.PingAt { // one of the first callers gets the id that equals the proxy's timeout value in ms
+		c.SetID, c.Start = true, int32(tars.VerifC08ProxyTimeout(sps[0])-1-c.N/2)
+	}
 	if c.SetID {
 		tars.VerifC08SetMsgID(c.Start)
 	}
@@ -648,6 +658,19 @@ func c08RunTrace(c *c08Case) []Failure {
 			if s, ok := reqs[k]; ok && patient(k) && !inSnap[s.id] {
 				fs = append(fs, Failure{Sig: "call/outstanding-call-has-no-entry", Desc: fmt.Sprintf("caller %d is outstanding with request id %d (request seen by the server, no reply sent, deadline far away) but the pending-reply table holds only %v", k, s.id, snap)})
 				break
+			}
+		}
+		if c.Pings > 0 { // keep-alive pings while the round is outstanding; wait until the peer has seen (and acknowledged) them
+			want := atomic.LoadInt32(&npings)
+			for i := 0; i < c.Pings; i++ {
+				for _, sp := range sps {
+					n := tars.VerifC08KeepAlive(sp)
+					want += int32(n)
+					wantedPings += n
+				}
+			}
+			for i := 0; i < 200 && atomic.LoadInt32(&npings) < want; i++ {
+				time.Sleep(10 * time.Millisecond)
 			}
 		}
 		for _, k := range c.Order {
@@ -787,6 +810,12 @@ func c08RunTrace(c *c08Case) []Failure {
 		}
 	}
 	c.Pending = pendingIDs()
+	c.NPings = int(atomic.LoadInt32(&npings))
+	defer func() { // no ticker of this scenario may dial its port after the scenario gave it up
+		for _, sp := range sps {
+			tars.VerifC08CloseAdapters(sp)
+		}
+	}()
 	cmu.Lock()
 	c.NConn = len(conns)
 	cmu.Unlock()
@@ -842,7 +871,17 @@ func c08RunTrace(c *c08Case) []Failure {
 			idOf[e.K] = e.ID
 		case "end":
 			delete(active, idOf[e.K])
+		case "ping":
+			if e.ID == 0 {
+				fs = append(fs, Failure{Sig: "ping/id-zero-on-wire", Desc: "a keep-alive ping went out with request id 0"})
+			}
+			if j, dup := active[e.ID]; dup {
+				fs = append(fs, Failure{Sig: "ping/id-shared-with-outstanding-call", Desc: fmt.Sprintf("a keep-alive ping went out with request id %d while caller %d is outstanding with that id", e.ID, j)})
+			}
 		}
+	}
+	if wantedPings > 0 && c.NPings == 0 {
+		fs = append(fs, Failure{Sig: "ping/no-ping-on-wire", Desc: fmt.Sprintf("%d keep-alive pings per proxy and round were triggered (%d doKeepAlive calls) but the scripted server received none", c.Pings, wantedPings)})
 	}
 	wireMu.Lock()
 	c.Wire = append([]int32(nil), wire...)
@@ -1044,7 +1083,7 @@ func c08RunWrap(c *c08Case) []Failure {
 // connection the server accepted, plus one for callers whose request never arrived) and the per-connection, per-call
 // observed outcomes (calls numbered in registration order on their connection). Internal steps (lookup, hand-over,
 // timeout) are placed where the machine can take them; a log the machine cannot follow is rejected by maccepts.
-func c08Labels(c *c08Case) (int, string, string, string) {
+func c08Labels(c *c08Case) (int, string, string, string, string) {
 	nad := c.NConn + 1
 	adOf := func(k int) int {
 		if k >= 0 && k < len(c.ConnOf) && c.ConnOf[k] >= 0 && c.ConnOf[k] < c.NConn {
@@ -1053,7 +1092,7 @@ func c08Labels(c *c08Case) (int, string, string, string) {
 		return c.NConn
 	}
 	var ls []string
-	var snaps []string
+	var snaps, pings []string
 	idx := map[int]int{} // caller -> call number on its adapter
 	idOf := map[int]int32{}
 	owOf := map[int]bool{}
@@ -1090,6 +1129,8 @@ func c08Labels(c *c08Case) (int, string, string, string) {
 			rs[a] = append(rs[a], rcv{id: e.ID, pay: e.Pay, ow: e.Oneway})
 		case "snap":
 			snaps = append(snaps, fmt.Sprintf("(%d%%nat, %s)", len(ls), c08Zs(e.IDs)))
+		case "ping":
+			pings = append(pings, fmt.Sprintf("(%d%%nat, (%d)%%Z)", len(ls), e.ID))
 		case "end":
 			ci, ok := idx[e.K]
 			if !ok { // never registered (call failed before the filter): not part of the table's history
@@ -1153,7 +1194,7 @@ func c08Labels(c *c08Case) (int, string, string, string) {
 	for a := range outs {
 		os[a] = "[" + strings.Join(outs[a], "; ") + "]"
 	}
-	return nad, "[" + strings.Join(ls, "; ") + "]", "[" + strings.Join(os, "; ") + "]", "[" + strings.Join(snaps, "; ") + "]"
+	return nad, "[" + strings.Join(ls, "; ") + "]", "[" + strings.Join(os, "; ") + "]", "[" + strings.Join(snaps, "; ") + "]", "[" + strings.Join(pings, "; ") + "]"
 }
 
 func c08Zs(l []int32) string {
@@ -1181,7 +1222,7 @@ func c08Coq(c *c08Case) string {
 	case "mt":
 		return fmt.Sprintf("KMt ((%d)%%Z, %s, (%d)%%Z)", c.Start, c08Zs(c.IDs), c.Final)
 	}
-	nad, ls, outs, snaps := c08Labels(c)
+	nad, ls, outs, snaps, pings := c08Labels(c)
 	// connections whose adapter has a push callback (those of proxy 0's callers) and what the callback saw
 	var pads, pushes []string
 	if c.Push {
@@ -1202,7 +1243,7 @@ func c08Coq(c *c08Case) string {
 			}
 		}
 	}
-	return fmt.Sprintf("KTrace ((%d%%nat, %s, %s, %s, %s, ([%s], [%s])), %s)", nad, ls, outs, snaps, c08Zs(c.Pending), strings.Join(pads, "; "), strings.Join(pushes, "; "), c08Zs(c.Wire))
+	return fmt.Sprintf("KTrace ((%d%%nat, %s, %s, %s, %s, ([%s], [%s])), %s, %s)", nad, ls, outs, snaps, c08Zs(c.Pending), strings.Join(pads, "; "), strings.Join(pushes, "; "), c08Zs(c.Wire), pings)
 }
 
 func c08Gen(tier string, rng *rand.Rand) []c08Case {
@@ -1286,6 +1327,12 @@ func c08Gen(tier string, rng *rand.Rand) []c08Case {
 			c.Proxies = 1
 		}
 		c.Push = si%3 == 1
+		if si%2 == 0 {
+			c.Pings = 1 + rng.Intn(3)
+		}
+		if si%8 == 4 && n <= 64 {
+			c.Pings, c.PingAt = 2, true
+		}
 		if tier == "thorough" {
 			c.Procs = []int{0, 1, 2, 4, 0, 16}[si%6]
 		} else if si%6 == 5 {
@@ -1328,7 +1375,7 @@ func c08Gen(tier string, rng *rand.Rand) []c08Case {
 			ks = append(ks, a)
 		}
 		sort.Strings(ks)
-		c.Class = fmt.Sprintf("trace/n%d/r%d/p%d/g%d/push%v/ids%d/%s", n, c.Rounds, c.Proxies, c.Procs, c.Push, si%4, strings.Join(ks, "+"))
+		c.Class = fmt.Sprintf("trace/n%d/r%d/p%d/g%d/push%v/ping%d%v/ids%d/%s", n, c.Rounds, c.Proxies, c.Procs, c.Push, c.Pings, c.PingAt, si%4, strings.Join(ks, "+"))
 		cs = append(cs, c)
 	}
 	// answered-then-call-again chains: every caller gets five replies at once and immediately calls again, three rounds
@@ -1366,7 +1413,7 @@ func c08Gen(tier string, rng *rand.Rand) []c08Case {
 	for i := 0; i < nf; i++ {
 		for _, mode := range []string{"prepost", "cf", "mw"} {
 			n := []int{4, 8, 16, 32}[rng.Intn(4)]
-			c := c08Case{Kind: "trace", N: n, Rounds: 1 + rng.Intn(2), Proxies: 1 + rng.Intn(2), TimeoutMs: 150 + rng.Intn(200), Filters: mode, Push: rng.Intn(2) == 0, Follow: true}
+			c := c08Case{Kind: "trace", N: n, Rounds: 1 + rng.Intn(2), Proxies: 1 + rng.Intn(2), TimeoutMs: 150 + rng.Intn(200), Filters: mode, Push: rng.Intn(2) == 0, Follow: true, Pings: rng.Intn(3), PingAt: rng.Intn(2) == 0}
 			used := map[string]bool{}
 			for k := 0; k < n*c.Rounds; k++ {
 				a := fkinds[rng.Intn(len(fkinds))]
